@@ -146,6 +146,7 @@ class PoolRec:
         self.obj = obj
         self.cls = cls  # 'T' | 'S'
         self.size = size  # int or None (unbounded)
+        self.orig_size = size
         self.spec = spec
         self.locked = False
         self.closed = False
